@@ -11,8 +11,10 @@ random, rendered as real FPy source, and
       also compared with the model's `run` (pre-pass + execution) on the oracle the inputs induce;
   (c) the same source is executed by CPython itself (every program, rejected ones included) and
       compared with the model's `exec`: the binding semantics the theorems are stated over.
-Known shapes (tagged, see `classify`): F6 loop target read after its loop; F17 name lent by the
-sibling of a returning branch.  Both fail in the interpreter's definition/use pre-pass, on every input.
+Any violation is a new defect (`finding: None`).  History: F6 (loop target accepted after its loop)
+and F21 (name lent by the sibling of a returning branch unknown to the interpreter's definition/use
+pre-pass) were found by this check and repaired; the model's `legacy` mode / `prepass_legacy` keep the
+old rules, and the run counts how many of today's rejected programs the old front end accepted.
 """
 from __future__ import annotations
 import importlib.util, itertools, os, shutil, sys, tempfile, time
@@ -597,33 +599,6 @@ def plain_run(pyf, args):
     except Exception as e:   # noqa
         return f'other {type(e).__name__} {str(e)[:80]}'
 
-def for_targets(blk, acc):
-    for s in blk:
-        k = s[0]
-        if k == 'F': acc.update(pat_names(s[1])); for_targets(s[3], acc)
-        elif k == 'I': for_targets(s[2], acc); for_targets(s[3], acc)
-        elif k in ('J', 'W'): for_targets(s[2], acc)
-        elif k == 'X': for_targets(s[3], acc)
-    return acc
-
-def classify(prog, outcome, m_fix, m_noabs, m_strict):
-    """known-finding shapes, by which of the two liberal rules of the front end the acceptance rests on
-    (the model's modes; `run_safe_iff_strict` proves there is no third cause):
-    F6  — the program is still accepted when a returning branch lends nothing (`noabsorb`) but not when
-          `_visit_for` merges into the pre-loop environment: accepted only because loop targets leak;
-    F17 — still accepted with `_visit_for` repaired (`fixfor`) but not under `noabsorb`: accepted only
-          because `_Env.merge` absorbs a terminated branch;
-    both rules involved (each repair alone is not enough, or either alone is) — decided by the failing
-    name: a `for` target -> F6, otherwise F17.
-    Anything else (e.g. the strict discipline accepts the program) is not a known shape."""
-    if not outcome.startswith('unbound '): return None
-    if not m_strict.startswith('reject'): return None
-    fix_ok, noabs_ok = m_fix == 'accept', m_noabs == 'accept'
-    if noabs_ok and not fix_ok: return 'F6'
-    if fix_ok and not noabs_ok: return 'F17'
-    name = Namer.name(int(outcome.split()[1]))
-    return 'F6' if name in for_targets(prog.abs, set()) else 'F17'
-
 def stmt_kinds(blk, rep):
     for s in blk:
         k = s[0]
@@ -695,12 +670,12 @@ def run(rep, tier, seed):
         t_front = time.time() - t0 - t_gen
         lines = []
         for p in progs:
-            lines += [f'check real {p.toks}', f'check fixfor {p.toks}', f'check noabsorb {p.toks}', f'check strict {p.toks}', f'prepass {p.toks}']
+            lines += [f'check real {p.toks}', f'check legacy {p.toks}', f'prepass {p.toks}', f'prepass_legacy {p.toks}']
         model = run_driver(lines)
         rep.cov['evaluations'] = len(progs)
         accepted = []
         for i, p in enumerate(progs):
-            m_real, m_fix, m_noabs, m_strict, m_pre = model[5 * i: 5 * i + 5]
+            m_real, m_legacy, m_pre, m_pre_legacy = model[4 * i: 4 * i + 4]
             rep.distinct.add(p.toks)
             rep.count('origin:' + p.origin.split('<')[0]) if p.origin != 'corpus' else None
             stmt_kinds(p.abs, rep)
@@ -709,15 +684,17 @@ def run(rep, tier, seed):
             if p.real != m_real:
                 rep.broke('correspondence', 'C15.check', f'real={p.real} model={m_real}\n{p.src}\ncheck real {p.toks}')
             if p.real == 'accept':
-                accepted.append((p, m_fix, m_noabs, m_strict, m_pre))
-                rep.count('accepted:fixfor-' + m_fix.split()[0] + ',strict-' + m_strict.split()[0] + ',prepass-' + m_pre.split()[0])
+                accepted.append(p)
+                rep.count('accepted:prepass-' + m_pre.split()[0] + ',old-prepass-' + m_pre_legacy.split()[0])
+            elif m_legacy == 'accept':
+                rep.count('rejected-today,accepted-before-F6-repair')
             if i % 97 == 0: rep.sample({'program': p.src, 'frontend': p.real, 'model': m_real})
         # (b) run every accepted program on every steering input (real interpreter = Spec oracle;
         #     model `run` on the induced oracle = correspondence)
         cap = 36 if quick else 81
         run_lines, run_meta = [], []
         seen_viol = {}
-        for (p, m_fix, m_noabs, m_strict, m_pre) in accepted:
+        for p in accepted:
             inputs, total = p.inputs(R, cap)
             rep.count('inputs:exhaustive' if total <= cap else 'inputs:sampled')
             for inp in inputs:
@@ -735,23 +712,21 @@ def run(rep, tier, seed):
                 if got.startswith('other'):
                     rep.broke('harness', 'C15.render', f'unexpected failure of the rendered program: {got}\n{p.src}\nargs={args}')
                 elif got != 'returned':
-                    fid = classify(p, got, m_fix, m_noabs, m_strict)
-                    rep.count('violation-runs:' + str(fid))
+                    rep.count('violation-runs')
                     key = (p.fname, got)
                     if key in seen_viol:
                         seen_viol[key]['failing_inputs'] += 1
                         continue
                     what = ('accepted program fails with an unbound variable' if got.startswith('unbound')
                             else 'accepted program falls off its end')
-                    rep.count('violation-programs:' + str(fid))
+                    rep.count('violation-programs')
                     rep.violation(f'{what} ({got.split()[0]} `{Namer.name(int(got.split()[1])) if " " in got else ""}` via {how})',
                                   {'program': p.src, 'args': args, 'steering': inp, 'outcome': got, 'raised': how,
-                                   'model_check_fixfor': m_fix, 'model_check_noabsorb': m_noabs, 'model_check_strict': m_strict,
-                                   'failing_inputs': 1, 'inputs_tried': len(inputs), 'finding': fid})
+                                   'failing_inputs': 1, 'inputs_tried': len(inputs), 'finding': None})
                     seen_viol[key] = rep.violations[-1]
         # (c) binding semantics of the model (`exec`, no pre-pass) against CPython running the same source,
         #     on rejected programs too (that is where genuinely unbound reads and fall-through live)
-        acc_set = {id(t[0]) for t in accepted}
+        acc_set = {id(t) for t in accepted}
         for p in progs:
             if id(p) in acc_set: continue
             inputs, total = p.inputs(R, 4 if quick else 6)
